@@ -80,11 +80,33 @@ def generate(seed: int, tier: str) -> dict:
         r = gen_request(orr, world)
         if r not in pool:
             pool.append(r)
+    if profile != "acyclic":
+        # In quasi-circular worlds a sum asked for at top level is, for the engine, one
+        # top-level request per piece: values are retained - and may go stale (the listed
+        # finding D0b) - between its pieces.  The retained-value clauses are about what is
+        # readable after *each* top-level request, so such a sum is asked piece by piece
+        # (acyclic worlds keep the sums whole, under C02.fresh; sums inside formulas stay).
+        from .c16 import sub_periods
+
+        units = {v["name"]: v["unit"] for v in world["variables"]}
+        expanded = []
+        for r in pool:
+            if r[0] == "calculate_add" and units.get(r[1]) in ("month", "day", "year"):
+                try:
+                    pieces = sub_periods(r[2], units[r[1]])
+                except Exception:  # noqa: BLE001
+                    pieces = []
+                for piece in pieces[:12]:
+                    if ["calculate", r[1], piece] not in expanded:
+                        expanded.append(["calculate", r[1], piece])
+            elif r[0] != "calculate_add":
+                expanded.append(r)
+        pool = expanded or [gen_request(orr, world, allow_options=False)]
     mode = "order"
     if tier == "thorough" and len(pool) <= 4 and chance(orr, 0.3):
         mode = "perms"
     actors = "ABC"[: orr.randint(2, 3)]
-    n_steps = steps(orr, len(pool), 12 if tier == "quick" else 20)
+    n_steps = steps(orr, min(len(pool), 12), max(len(pool), 12 if tier == "quick" else 20))
     order = [{"actor": pick(orr, actors), "req": orr.randrange(len(pool))} for _ in range(n_steps)]
     return {
         "format": 1,
